@@ -132,6 +132,9 @@ func (fi *funcInfo) caseSplit(a string, goals, facts []Lin, depth int) bool {
 	}
 	v, ok := valueByName[name]
 	if !ok {
+		if isLen {
+			return fi.epochJoinSplit(a, goals, facts, depth)
+		}
 		return false
 	}
 	if call, isCall := v.(*ssa.Call); isCall && !isLen && call.Parent() == fi.fn {
@@ -491,7 +494,17 @@ func (fi *funcInfo) findSubmatch(ins ssa.Instruction) bool {
 		return false
 	}
 	sc := call.Call.StaticCallee()
-	if sc == nil || calleeName(sc) != "(*regexp.Regexp).FindSubmatch" {
+	if sc == nil {
+		return false
+	}
+	// the []byte and string variants have the same contract; the index variants return a pair
+	// of positions per group
+	perGroup := int64(1)
+	switch calleeName(sc) {
+	case "(*regexp.Regexp).FindSubmatch", "(*regexp.Regexp).FindStringSubmatch":
+	case "(*regexp.Regexp).FindSubmatchIndex", "(*regexp.Regexp).FindStringSubmatchIndex":
+		perGroup = 2
+	default:
 		return false
 	}
 	// receiver: a regexp compiled from a constant pattern (package-level variable, lazily
@@ -504,7 +517,7 @@ func (fi *funcInfo) findSubmatch(ins ssa.Instruction) bool {
 	if err != nil {
 		return false
 	}
-	if k > int64(re.MaxCap()) {
+	if k >= perGroup*(int64(re.MaxCap())+1) {
 		return false
 	}
 	// dominated by result != nil
